@@ -3,6 +3,7 @@ package props
 import (
 	"go/token"
 	"go/types"
+	"strings"
 
 	"golang.org/x/tools/go/ssa"
 
@@ -15,6 +16,9 @@ func init() { register("C05", checkC05) }
 func checkC05(p *load.Program, r *kit.Report) {
 	importRules(p, r, "C16", "a request that is abandoned while a node is delivering the block, a download counted complete without having processed the requested block, or a registry that loses running downloads, leaves best-chain blocks unprocessed", 3, nil, "GIVE-UP")
 	importRules(p, r, "C04", "the processed marker (AppendBlockTxIDs) is what the walk back stops at: it must be written last, only for a fully processed block", 2, nil, "ORDER")
+	importRules(p, r, "C09", "synchronizeBlocks checks the pending block with headers.Hash(height): a refused tip height ends the round with the request still in flight (the block is then requested and processed twice)", 6, nil, "TIP-BOUND")
+	importRules(p, r, "C09", "synchronizeBlocks walks back from the tip with headers.PreviousHash: a `none` for a held predecessor ends every round without a request", 2,
+		func(o *kit.Obligation) bool { return strings.HasPrefix(o.Construct, "PreviousHash") }, "LOOKUP-SHAPE")
 	r.NotDecided = "everything about which blocks are requested for a given chain/processed set, reorg timing and failure recovery over histories; strictly-ascending contiguous processing as an observed sequence. Decided are the guards, pairing and signalling facts necessary for it."
 	r.Rule("GUARD-DOM", "synchronizeBlocks returns before any request when the tip is below StartBlockHeight; a block is prepended to the request list only behind height > StartBlockHeight and a not-yet-processed answer of FetchBlockTxIDs; close(abort) only for a non-nil channel of the current request", 4)
 	r.Rule("LOOP-EXITS", "the walk back from the tip stops (and requests are issued) only at the configured start height or at a block whose processed marker exists; there is no other way from the walk to AddRequest", 1)
